@@ -21,8 +21,8 @@ for name in sorted(os.listdir(root)):
         except Exception: old = {}
     meta = {
         'property': agent.get('property', name.split('-')[0]),
-        'breaks': agent.get('what'),
-        'needs_to_manifest': agent.get('needs'),
+        'breaks': agent.get('what') or agent.get('breaks'),
+        'needs_to_manifest': agent.get('needs') or agent.get('needs_to_manifest'),
         'files_changed': agent.get('files_changed'),
         'origin': 'written by an independent sub-agent that saw only the property text and a scratch worktree of /repo (nothing from /verif)',
         'base_commit': old.get('base_commit') or agent.get('base_commit'),
